@@ -80,7 +80,7 @@ fn applicable(mode: IMode, op: &str) -> bool {
 
 /// Plan scenario: G-static module, 1-8 injections of all modes through all paths; one time
 /// in three the module also gets add_func_type calls for signatures it already has.
-fn plan_scenario(c: &mut Case, fin: &mut dyn FnMut(&mut Case, Built, &ScenarioInfo) -> Outcome) -> Outcome {
+fn plan_scenario(c: &mut Case, shifting_ok: bool, fin: &mut dyn FnMut(&mut Case, Built, &ScenarioInfo) -> Outcome) -> Outcome {
     let mut profile = Profile::from_tape(&mut c.t);
     profile.gc = profile.gc && c.t.bool();
     let mut cfg = steer_cfg(c, Kind::Static, profile);
@@ -137,12 +137,19 @@ fn plan_scenario(c: &mut Case, fin: &mut dyn FnMut(&mut Case, Built, &ScenarioIn
     order_plan(&mut plan);
     // type additions that hit the de-duplication map (signatures the module already has)
     let mut type_adds: Vec<(Vec<wirm::DataType>, Vec<wirm::DataType>)> = vec![];
-    if !component && c.t.chance(1, 3) {
+    if !component && c.t.chance(1, 2) {
         let n = c.t.range(1, 3);
         for _ in 0..n {
-            let sigs: Vec<&crate::gen::GType> = m.types.iter().filter(|t| matches!(t.comp, crate::gen::GComposite::Func { .. })).collect();
+            let mut sigs: Vec<&crate::gen::GType> = m.types.iter().filter(|t| matches!(t.comp, crate::gen::GComposite::Func { .. })).collect();
             if sigs.is_empty() {
                 break;
+            }
+            // signatures that only exist as open / derived declarations are the interesting
+            // lookups: the exact (final) key is absent, whatever the library does next
+            let open: Vec<&crate::gen::GType> = sigs.iter().copied().filter(|t| !t.is_final).collect();
+            if !open.is_empty() && c.t.bool() {
+                sigs = open;
+                c.class("type_add_of_open_signature");
             }
             if let crate::gen::GComposite::Func { params, results } = &c.t.pick(&sigs).comp {
                 if params.iter().chain(results.iter()).all(|v| v.is_num()) {
@@ -162,7 +169,7 @@ fn plan_scenario(c: &mut Case, fin: &mut dyn FnMut(&mut Case, Built, &ScenarioIn
     if dup_types && (plan.iter().any(|i| i.mode == IMode::FuncExit) || !type_adds.is_empty()) {
         c.class("duplicate_types_and_type_lookup");
     }
-    let info = ScenarioInfo { kind: "plan", edits: type_adds.len(), injections: plan.len(), special, reindexed: false, fp: fnv(&bytes) ^ fnv(plan_txt.as_bytes()) ^ type_adds.len() as u64 };
+    let info = ScenarioInfo { kind: "plan", edits: type_adds.len(), injections: plan.len(), special, reindexed: shifting_ok && !type_adds.is_empty() && !component, fp: fnv(&bytes) ^ fnv(plan_txt.as_bytes()) ^ type_adds.len() as u64 };
     if component {
         let comp_bytes = super::c03::wrap_component(&bytes, false, 1);
         let mut comp = match run_lib(|| wirm::Component::parse(&comp_bytes, true)) {
@@ -182,8 +189,14 @@ fn plan_scenario(c: &mut Case, fin: &mut dyn FnMut(&mut Case, Built, &ScenarioIn
         for inj in &plan {
             let _ = run_lib(|| apply_any(Some(&mut module), None, inj));
         }
-        for (p, r) in &type_adds {
-            let _ = run_lib(|| module.types.add_func_type(p, r, None));
+        for (k, (p, r)) in type_adds.iter().enumerate() {
+            // the returned index is used (an import of that type), so it shows in the output
+            let _ = run_lib(|| {
+                let ty = module.types.add_func_type(p, r, None);
+                if shifting_ok {
+                    module.add_import_func("ta".to_string(), format!("t{}", k), ty);
+                }
+            });
         }
         fin(c, Built::M(&mut module), &info)
     }
@@ -229,7 +242,7 @@ pub fn scenario(c: &mut Case, shifting_ok: bool, fin: &mut dyn FnMut(&mut Case, 
         }
         o
     } else {
-        plan_scenario(c, fin)
+        plan_scenario(c, shifting_ok, fin)
     }
 }
 
